@@ -265,7 +265,7 @@ class Twin(object):
         ca, cb = canon(a), canon(b)
         case = {"history": self.hidx, "step": self.step, "op": kind, "args": args}
         ctx.case((kind, canon(args), cb) if (nontrivial and b[0] == "ok") else None, kind=kind)
-        if self.hidx == 0 and self.step < 3:
+        if self.hidx == 0 and isinstance(self.step, int) and self.step < 3:
             ctx.sample({"op": kind, "args": _short(args), "http": _short(a), "direct": _short(b)})
         if ca != cb:
             k = known or "http-direct-result-differs:" + kind
@@ -718,6 +718,10 @@ class Twin(object):
             newlen = r.choice([None, None, None, 0, 3, len(cur), len(cur) + 10])
             tw[sh] = (tests, writes, newlen)
         rv = [(r.randrange(40), r.choice([0, 1, 10, 1000])) for _ in range(r.choice([0, 1, 2]))]
+        self.do_rtw(si, secrets, tw, rv, kind)
+
+    def do_rtw(self, si, secrets, tw, rv, kind):
+        """One read-test-write through the adapter on A and directly on B; compared, marshalling checked."""
         wire_tw = {sh: ([(o, n, b"eq", s) for (o, n, s) in t], w, nl) for sh, (t, w, nl) in tw.items()}
         del self.capture[:]
         a = self.http(lambda: self.ad.slot_testv_and_readv_and_writev(si, secrets, tw, rv))
@@ -736,7 +740,7 @@ class Twin(object):
         small = sum(len(d) for (_, w, _) in tw.values() for (_, d) in w) + sum(len(sp) for (t, _, _) in tw.values() for (_, _, sp) in t) <= 500
         msgs = [p for k, p in cap if k == "msg"]
         sargs = [p for k, p in cap if k == "args"]
-        if small and msgs and sargs:
+        if small and msgs and sargs and (kind in ("rtw", "rtw-bad-enabler") or self.hidx < 3):
             info = {"history": self.hidx, "step": self.step, "op": "rtw-marshalling", "args": args}
             self.terms.append("decoded_is %s %s" % (t_cbor(msgs[0]), t_wire(*sargs[0])))
             self.info.append(dict(info, what="decode(captured message) = arguments the storage server received"))
@@ -752,6 +756,73 @@ class Twin(object):
                 if res:
                     self.terms.append("answer_decoded_is (encode_answer %s) %s" % (t_answer(res[0][0], res[0][1]), t_answer(a[1][0], a[1][1])))
                     self.info.append(dict(info, what="decode(encode(server result)) = what the client returned"))
+
+    # ---- deterministic scenarios (run in every history) ---------------------------------
+    def new_slot(self):
+        si = self.new_si(mutable=True)
+        self.slots[si] = rb(self.r, 32)
+        self.slot_data[si] = set()
+        return si
+
+    def scenario_test_vector_sizes(self):
+        """Test vectors whose `size` differs from len(specimen): the server must read `size` bytes and
+        compare them with the specimen (shorter and longer specimen, share longer and shorter than size)."""
+        r = self.r
+        si = self.new_slot()
+        sec = lambda: (self.slots[si], rb(r, 32), rb(r, 32))      # noqa
+        d0, d1 = rb(r, 8), rb(r, 8)
+        self.do_rtw(si, sec(), {0: ([], [(0, d0)], None), 1: ([], [(0, d1)], None)}, [], "rtw-create")
+        steps = [
+            # (label, share, test vector, write) -- the write only happens when the test passes
+            ("size1-empty-specimen", 0, (0, 1, b""), (0, b"second creator wins")),          # "share must not exist yet"
+            ("size1-empty-specimen-new-share", 2, (0, 1, b""), (0, rb(r, 6))),             # ... and it does not
+            ("size-shorter-than-specimen", 1, (0, 2, d1[0:4]), (0, b"W1")),
+            ("size-longer-than-specimen", 1, (0, 4, d1[0:2]), (2, b"W2")),
+            ("size0-nonempty-specimen", 1, (0, 0, d1[0:1]), (4, b"W3")),
+            ("size-past-end-specimen-is-tail", 1, (6, 4, d1[6:8]), (6, b"W4")),            # share shorter than size: passes on both
+            ("size-past-end-longer-specimen", 1, (6, 2, b"W4" + b"\x00\x00"), (0, b"W5")),
+            ("size-equals-specimen", 1, (0, 2, None), (0, b"W6")),                          # ordinary checkstring (control)
+        ]
+        for label, sh, (o, n, spec), write in steps:
+            if spec is None:
+                cur = self.B.slot_readv(si, [sh], [(o, n)]).get(sh, [b""])[0]
+                spec = cur
+            self.do_rtw(si, sec(), {sh: ([(o, n, spec)], [write], None)}, [(0, 40)], "rtw-testv-" + label)
+        self.op_slot_readv_of(si, [], [(0, 64)])
+
+    def scenario_shrink_then_read(self):
+        """A mutable share shrunk with new_length, then range reads that cross / start past the NEW end
+        (and again after growing back below the old size)."""
+        r = self.r
+        si = self.new_slot()
+        sec = lambda: (self.slots[si], rb(r, 32), rb(r, 32))      # noqa
+        big = r.choice([300, 300, 1000])
+        new = r.choice([100, 100, 37])
+        self.do_rtw(si, sec(), {0: ([], [(0, rb(r, big))], None), 1: ([], [(0, rb(r, big))], None)}, [], "rtw-create")
+        self.do_rtw(si, sec(), {0: ([], [], new)}, [(0, 10)], "rtw-shrink")
+        reads = [(0, 1000), (new - 40 if new > 40 else 0, 100), (new + 50, 50), (new, 1), (new - 1, 2), (0, new), (big - 1, 5)]
+        for (o, n) in reads:
+            self.op_slot_readv_of(si, [0], [(o, n)], kind="slot-readv-after-shrink")
+            self.op_mread_of(si, 0, o, n, kind="mutable-read-after-shrink")
+        self.op_slot_readv_of(si, [], [(0, 2000), (new - 5, 10)], kind="slot-readv-after-shrink")
+        self.do_rtw(si, sec(), {0: ([], [(new, rb(r, 10))], None)}, [(0, 2000)], "rtw-regrow")
+        for (o, n) in [(0, 1000), (new, 50), (new + 5, 500), (big - 10, 20)]:
+            self.op_slot_readv_of(si, [0], [(o, n)], kind="slot-readv-after-regrow")
+            self.op_mread_of(si, 0, o, n, kind="mutable-read-after-regrow")
+
+    def op_slot_readv_of(self, si, shares, rv, kind="slot-readv"):
+        a = self.http(lambda: self.ad.slot_readv(si, shares, rv))
+        b = self.direct(lambda: self.B.slot_readv(si, shares, rv))
+        if a[0] == "ok":
+            a = ("ok", {k: list(v) for k, v in a[1].items()})
+        if b[0] == "ok":
+            b = ("ok", {k: list(v) for k, v in b[1].items()})
+        self.compare(kind, {"si": si.hex(), "shares": shares, "readv": rv}, a, b)
+
+    def op_mread_of(self, si, sh, offset, length, kind="mutable-read"):
+        a = self.http(lambda: self.mu.read_share_chunk(si, sh, offset, length))
+        b = self.direct(lambda: self.B.slot_readv(si, [sh], [(offset, length)])[sh][0])
+        self.compare(kind, {"si": si.hex(), "sh": sh, "offset": offset, "length": length}, a, b)
 
     def op_slot_readv(self):
         r = self.r
@@ -852,6 +923,12 @@ class Twin(object):
                (self.op_multi_piece, 6 if self.big else 0), (self.op_upload_pattern, 7)]
         bag = [f for f, w in ops for _ in range(w)]
         self.op_allocate()
+        self.step = "scenario-test-vector-sizes"
+        self.scenario_test_vector_sizes()
+        self.step = "scenario-shrink-then-read"
+        self.scenario_shrink_then_read()
+        if not self.compare_states("after the scenarios"):
+            nsteps = 0
         for step in range(nsteps):
             self.step = step
             self.r.choice(bag)()
@@ -865,8 +942,8 @@ class Twin(object):
 
 def run(ctx):
     ctx.correspondence("http-range-upload-rtw-model-vs-impl")
-    nh = ctx.n(20, 200)
-    steps = ctx.n(70, 120)
+    nh = ctx.n(16, 200)
+    steps = ctx.n(60, 120)
     terms, info = [], []
     for h in range(nh):
         t = Twin(ctx, h)
@@ -888,5 +965,7 @@ def replay(ctx, rec):
     if "history" not in case:
         return "no history recorded"
     t = Twin(ctx, case["history"])
-    t.run(min(case.get("step", 0) + 1, 100000))
-    return {"history": case["history"], "steps_run": case.get("step", 0) + 1, "failures": [(f["kind"], f["what"][:200]) for f in ctx.failures]}
+    step = case.get("step", 0)
+    step = step if isinstance(step, int) else 0       # "scenario-...": the fixed scenarios at the start of every history
+    t.run(min(step + 1, 100000))
+    return {"history": case["history"], "steps_run": step + 1, "failures": [(f["kind"], f["what"][:200]) for f in ctx.failures]}
